@@ -504,6 +504,8 @@ for v4 in v0.feature_edges:
     v0.feature_degrees[v6] += 1
 if v0.flag_corners:
     v0._flag_corners(v1)
+else:
+    v0.corners = None
 if v0.compute_feature_graph:
     v0._compute_feature_graph(v1)
     if v0.flag_corners:
